@@ -15,6 +15,7 @@ import (
 	"strings"
 
 	"github.com/zerx-lab/wordZero/pkg/document"
+	"github.com/zerx-lab/wordZero/pkg/markdown"
 
 	"verif/foreign"
 	"verif/sim"
@@ -204,6 +205,22 @@ func (w *World) apply(ds *Doc, op sim.Op, o *Obs) {
 		w.Stats.Probe("foreign_opened")
 	case k == "tpl.render":
 		w.opTplRender(ds, op, o)
+	case k == "md": // S[0]=markdown source, I[0]=option bits: the slot's document becomes the conversion result
+		opts := markdown.DefaultOptions()
+		opts.EnableGFM, opts.EnableTables, opts.EnableTaskList, opts.EnableMath = op.Int(0)&1 != 0, op.Int(0)&2 != 0, op.Int(0)&4 != 0, op.Int(0)&8 != 0
+		opts.GenerateTOC = op.Int(0)&16 != 0
+		d2, err := markdown.NewConverter(opts).ConvertString(op.Str(0), opts)
+		o.Err = err
+		if err != nil || d2 == nil {
+			return
+		}
+		ds.D, ds.Dead, ds.Foreign, ds.Base = d2, false, nil, nil
+		ds.Paras, ds.Tables, ds.Images = nil, nil, nil
+		if d2.Body != nil {
+			ds.Paras = append(ds.Paras, d2.Body.GetParagraphs()...)
+			ds.Tables = append(ds.Tables, d2.Body.GetTables()...)
+		}
+		w.Stats.Probe("markdown_conversions")
 	case strings.HasPrefix(k, "t."):
 		w.applyTable(ds, op, o)
 	case strings.HasPrefix(k, "p."):
